@@ -113,8 +113,13 @@ func cleanup() {
 }
 
 // instrumentTree returns a directory holding overlay.json for the current tree (cached by content hash).
-func instrumentTree() string {
+func instrumentTree() string { return instrumentTreeMode(true) }
+
+func instrumentTreeMode(race bool) string {
 	key := hashTree()
+	if !race {
+		key += "-norw"
+	}
 	cacheRoot := filepath.Join(verifDir, ".cache")
 	dir := filepath.Join(cacheRoot, "inst-"+key)
 	if _, err := os.Stat(filepath.Join(dir, "overlay.json")); err == nil {
@@ -127,7 +132,7 @@ func instrumentTree() string {
 	if err != nil {
 		fatal("%v", err)
 	}
-	cmd := exec.Command(filepath.Join(verifDir, "bin", "instrument"), "-repo", repoDir, "-out", tmp)
+	cmd := exec.Command(filepath.Join(verifDir, "bin", "instrument"), "-repo", repoDir, "-out", tmp, fmt.Sprintf("-race=%v", race))
 	cmd.Env = goEnv()
 	out, err := cmd.CombinedOutput()
 	if err != nil {
@@ -217,6 +222,22 @@ func prepareQuartz(dir string) error {
 
 // buildHarness builds /verif/harness/<name> against the instrumented tree; returns the binary path.
 func buildHarness(inst, name string, race bool) string {
+	bin, out, err := tryBuildHarness(inst, name, race)
+	if err != nil && !strings.HasSuffix(inst, "-norw") {
+		// the access instrumentation for the race detector is the most intricate rewrite: if the tree
+		// does not build with it, fall back to the plain instrumentation (race rules are then inert)
+		fmt.Println("NOTE: build with read/write instrumentation failed; retrying without it")
+		inst2 := instrumentTreeMode(false)
+		bin, out, err = tryBuildHarness(inst2, name, race)
+	}
+	if err != nil {
+		fmt.Print(out)
+		fatal("building harness %s against the current tree failed: %v", name, err)
+	}
+	return bin
+}
+
+func tryBuildHarness(inst, name string, race bool) (string, string, error) {
 	sc := mkScratch()
 	b, err := os.ReadFile(filepath.Join(inst, "overlay.json"))
 	if err != nil {
@@ -282,11 +303,7 @@ func buildHarness(inst, name string, race bool) string {
 	cmd.Dir = repoDir
 	cmd.Env = goEnv()
 	out, err := cmd.CombinedOutput()
-	if err != nil {
-		fmt.Print(string(out))
-		fatal("building harness %s against the current tree failed: %v", name, err)
-	}
-	return bin
+	return bin, string(out), err
 }
 
 // ---- worker protocol -------------------------------------------------------------------------
